@@ -232,10 +232,7 @@ pub fn run_batch_with(exe: &std::path::Path, prop: &str, seed: u64, n: u64, work
                                 oracle_evals: r.stats.oracle_evals,
                                 has_unknown_fields: r.stats.probes.contains_key("unknown_field_type_value")
                                     || r.stats.probes.contains_key("unknown_field_record_with_feature_off")
-                                    || r.stats.probes.contains_key("unknown_field_in_template")
-                                    // listed finding: the library's merged template of a multi-record
-                                    // IPFIX template set contains invented field numbers
-                                    || r.stats.probes.contains_key("ipfix_multi_template_set"),
+                                    || r.stats.probes.contains_key("unknown_field_in_template"),
                             },
                         );
                         if r.index < CORPUS_BASE {
